@@ -315,19 +315,33 @@ class Run:
         if len(self.cov["samples"]) < limit:
             self.cov["samples"].append(x)
 
-    def open_known(self, key):
+    def open_known(self, key, signature=None):
         for k in self.known:
-            if k.get("status") == "open" and k.get("key") == key:
+            if k.get("status") != "open":
+                continue
+            if key in k.get("keys", []) or (signature is not None and k.get("signature") == signature):
                 return k
         return None
 
-    def fail(self, key, what, replay_obj):
+    def known_hit(self, signature, example=None):
+        """Record a failure that a classifier attributes to an open known finding.  Returns True
+        if such an open finding exists (then the failure is not a violation)."""
+        k = self.open_known(None, signature)
+        if k is None:
+            return False
+        if signature not in [h[0] for h in self.known_hits]:
+            self.known_hits.append((signature, k["what"]))
+            out("KNOWN-FINDING: property=%s %s" % (self.pid, k["what"]))
+        return True
+
+    def fail(self, key, what, replay_obj, signature=None):
         """Report one failing object.  `key` identifies the failure narrowly (see DESIGN §7)."""
-        k = self.open_known(key)
+        k = self.open_known(key, signature)
         if k is not None:
-            if key not in [h[0] for h in self.known_hits]:
-                self.known_hits.append((key, k["what"]))
-                out("KNOWN-FINDING: property=%s %s [%s]" % (self.pid, k["what"], key))
+            tag = signature or key
+            if tag not in [h[0] for h in self.known_hits]:
+                self.known_hits.append((tag, k["what"]))
+                out("KNOWN-FINDING: property=%s %s" % (self.pid, k["what"]))
             return False
         if len(self.violations) >= 25:
             self.violations.append((key, None))
